@@ -496,6 +496,12 @@ func c17HeldSubscriber(x *mc.Cell) {
 			_ = n.H().OnReceiveDataError(c, errTransfer)
 			mc.Wait()
 		}},
+		// the application re-validates with a new data limit (responder only; an error on the initiator): the limit
+		// must appear in the snapshot of ITS event, not in snapshots of earlier events that are announced later
+		{"update-limit", func(n *Node, c datatransfer.ChannelID, created bool, k int) {
+			_ = n.Mgr.UpdateValidationStatus(context.Background(), c, datatransfer.ValidationResult{Accepted: true, DataLimit: uint64(4096 + k)})
+			mc.Wait()
+		}},
 	}
 	all := append(append([]stim(nil), stims...), extra...)
 	for _, role := range []Role{CreatedPush, ReceivedPull} {
